@@ -257,7 +257,8 @@ fn run_prog<C: Counter>(
     for ks in &keysets {
         for k in 1..=k_max {
             for incs in combi::sequences(ks, k) {
-                if !seen.insert(incs.clone()) {
+                // key names are symmetric: only sequences whose first key is the smallest one
+                if !seen.insert(incs.clone()) || incs[0] != ks[0] {
                     continue;
                 }
                 cases.push(("seq", incs.clone()));
@@ -411,7 +412,7 @@ pub fn run(rep: &mut Report, thorough: bool, replay: Option<Value>) {
         let sim = flow.sim().compiled();
         prog!(sim, sc, false, k_max, &|| sc.reset());
         prog!(sim, s1, false, k_keyed, &none);
-        prog!(sim, cc, false, k_keyed, &none);
+        prog!(sim, cc, false, 2, &none); // same body as single_counter in the repo
         prog!(sim, kc, false, k_keyed, &none);
         prog!(sim, own, false, k_max, &none);
     }
